@@ -1,8 +1,10 @@
 package rules
 
 import (
+	"fmt"
 	"go/token"
 	"sort"
+	"strconv"
 	"strings"
 
 	"golang.org/x/tools/go/ssa"
@@ -13,7 +15,7 @@ import (
 func init() { Registry["C04"] = checkC04 }
 
 func checkC04(p *core.Prog, r *core.Report) {
-	r.Explanation = "Decides structural necessary conditions of no-lost-wake-up and queue order: (R1) in every function that lowers a key's depth (store LockManager.locked := locked - n), every path from that store to the function's exit calls wakeUpWaitLocks for the same manager; (R2) the wake-up pass re-reads the queue head after every grant and exits only when not waited / head nil / head inadmissible; (R3) GetWaitLock returns the container's Head() and discards only tombstoned or ack-pending entries; (R4) in Lock a newcomer is granted while the key is held and has waiters only with the priority flag and doCheckLockWaitPriority==true; (R5) doCheckLockWaitPriority is strict (>); (R6) AddWaitLock skips the switch to the priority ring only when priorities cannot differ. (R7) the migration to the priority ring feeds it in arrival order (inline slice before overflow ring). NOT decided: FIFO/priority order inside the containers and their migrations (C20 territory), interleavings between the unlock and the pass."
+	r.Explanation = "Decides structural necessary conditions of no-lost-wake-up and queue order: (R1) in every function that lowers a key's depth (store LockManager.locked := locked - n), every path from that store to the function's exit calls wakeUpWaitLocks for the same manager; (R2) the wake-up pass re-reads the queue head after every grant and exits only when not waited / head nil / head inadmissible; (R3) GetWaitLock returns the container's Head() and discards only tombstoned or ack-pending entries; (R4) in Lock a newcomer is granted while the key is held and has waiters only with the priority flag and doCheckLockWaitPriority==true; (R5) doCheckLockWaitPriority is strict (>); (R6) AddWaitLock skips the switch to the priority ring only when priorities cannot differ. (R7) the migration to the priority ring feeds it in arrival order (inline slice before overflow ring). (R8) in Lock a path that adds a new holder and does not run the wake-up pass has tested the manager's waited flag false. NOT decided: FIFO/priority order inside the containers and their migrations (C20 territory), interleavings between the unlock and the pass."
 	r.Assumptions = []string{"Go type checker and go/ssa are correct for /repo", "container methods Head/Pop/Push/MaxPriority behave as a queue (C20, not claimed)"}
 	c04R1(p, r)
 	c04R2(p, r)
@@ -22,6 +24,7 @@ func checkC04(p *core.Prog, r *core.Report) {
 	c04R5(p, r)
 	c04R6(p, r)
 	c04R7(p, r)
+	c04R8(p, r)
 }
 
 var lmLocked = fk("server.LockManager", "locked")
@@ -480,5 +483,87 @@ func c04R7(p *core.Prog, r *core.Report) {
 		r.Fail("C04/R7: no push into the new ring found")
 	} else if !bad {
 		r.Hold(rule, "server.(*LockManagerWaitQueue).RePushPriorityRingQueue: migration order", p.Pos(fn.Pos()), "slice entries are pushed before ring entries on every path")
+	}
+}
+
+// c04R8: a newcomer that is granted directly as a new holder changes what the
+// queued requests may do (a request that waits because the key was unlocked, a
+// reader behind a writer that gave way): "at every quiescent moment no key has
+// an admissible live request at the head of its queue" needs the wake-up pass
+// after such a grant whenever requests are queued. Decided on the paths of
+// Lock: a path that adds a holder (AddLock) and reaches the exit without
+// wakeUpWaitLocks has tested, on the manager's own waited flag, that nothing
+// is queued - or that the granted lock object was not a fresh one.
+func c04R8(p *core.Prog, r *core.Report) {
+	const rule = "C04/R8"
+	r.Rule(rule, "Lock (non-ack arms): a path that adds a new holder and does not run the wake-up pass has tested the manager's waited flag false (or the lock object's depth non-zero)", 1)
+	fn := mustFunc(p, r, "server.(*LockDB).Lock")
+	if fn == nil {
+		return
+	}
+	n, bad, badTrace := 0, "", []string(nil)
+	ackFlag := strconv.FormatInt(mustConst(p, r, "protocol", "TIMEOUT_FLAG_REQUIRE_ACKED"), 10)
+	lockDepth := map[string]bool{}
+	ex := core.NewExplorer(p, core.Hooks{
+		Track: func(x *core.X, a core.Atom) bool {
+			s := core.Plain(a.String())
+			if strings.HasSuffix(s, ".locked != 0") {
+				for _, d := range a.Deps {
+					if d == fk("server.Lock", "locked") {
+						lockDepth[a.String()] = true // the granted lock object was not a fresh one
+						return true
+					}
+				}
+			}
+			return strings.Contains(s, ".waited ") || strings.HasSuffix(s, "TimeoutFlag & "+ackFlag+") != 0")
+		},
+		Instr: func(x *core.X) {
+			if !x.Top() {
+				return
+			}
+			if calleeIs(x.Ins, "LockManager", "AddLock") {
+				x.Set("granted", x.Pos())
+				// only tests made from here on count: forget earlier ones
+				x.Set("mark", strconv.Itoa(len(x.St.Trace)))
+			}
+			if calleeIs(x.Ins, "LockDB", "wakeUpWaitLocks") {
+				x.Set("woke", "1")
+			}
+		},
+		Exit: func(x *core.X, rets []core.Expr) {
+			if x.Get("granted") == "" {
+				return
+			}
+			for h := range x.St.Hist {
+				if strings.HasSuffix(core.Plain(h), "TimeoutFlag & "+ackFlag+") != 0") {
+					return // the ack-pending arm answers and wakes later (C11); not decided here
+				}
+			}
+			n++
+			if x.Get("woke") == "1" {
+				return
+			}
+			ok := false
+			for h := range x.St.Hist {
+				if lockDepth[h] || strings.HasSuffix(core.Plain(h), ".waited == false") {
+					ok = true
+				}
+			}
+			if !ok && bad == "" {
+				bad, badTrace = x.Get("granted"), x.St.Trace
+			}
+		},
+	})
+	ex.Run(fn, nil)
+	key := "server.(*LockDB).Lock: direct grant of a new holder is followed by the wake-up pass when requests are queued"
+	switch {
+	case ex.Imprecise != "":
+		r.Fail("C04/R8: %s", ex.Imprecise)
+	case n == 0:
+		r.Fail("C04/R8: no grant path found in Lock")
+	case bad != "":
+		r.Violate(rule, key, bad, "a path grants the newcomer as a new holder and leaves without the wake-up pass and without having tested the manager's waited flag: a request queued because the key was unlocked (unlock_to_wait) stays queued although it is now admissible - and a later unlock does not help either", badTrace)
+	default:
+		r.Hold(rule, key, p.Pos(fn.Pos()), fmt.Sprintf("%d grant paths", n))
 	}
 }
